@@ -22,12 +22,17 @@
      operations leave observably the same attribute table on every character; a
      style operation and a concurrent edit agree on every character that is still
      visible.
-   PARTIAL: the commutation premises for array move/delete/set and tree are
-   not proved; for those C01 is decided by the
+   - arrays with moves: on the position-list model (Crdt/ArrayKeys.v, run in
+     lockstep with the slot model and the implementation on every recorded case)
+     two concurrent operations out of insert, move (same element or not), delete
+     commute, and any number of them converge in every execution order.  Anchors
+     are position identities, as the JSON layer passes them; set-by-index is
+     excluded (finding P13 lives there).
+   PARTIAL: array set-by-index and tree are not proved; for those C01 is decided by the
    differential structure engines (model = code) plus the convergence oracle on
    real multi-client histories. *)
 From Coq Require Import List Permutation.
-From YV Require Import Crdt.RGAList Crdt.ElemRHT Proofs.SEC Proofs.RGAProofs Proofs.ERHTProofs Proofs.ERHTCommute Proofs.ERHTDecode Proofs.ERHTRemove Proofs.RGACommuteGen Crdt.TextRGA Proofs.TextProofs Proofs.TextBatch Crdt.RHT Crdt.TextStyle Proofs.RHTProofs Proofs.TextSplice Proofs.TextStyleProofs.
+From YV Require Import Crdt.RGAList Crdt.ElemRHT Proofs.SEC Proofs.RGAProofs Proofs.ERHTProofs Proofs.ERHTCommute Proofs.ERHTDecode Proofs.ERHTRemove Proofs.RGACommuteGen Crdt.TextRGA Proofs.TextProofs Proofs.TextBatch Crdt.RHT Crdt.TextStyle Proofs.RHTProofs Proofs.TextSplice Proofs.TextStyleProofs Crdt.ArrayKeys Proofs.ArrayProofs.
 
 Theorem C01_convergence_from_commutation :
   forall (S O : Type) (apply : S -> O -> option S) (hb : O -> O -> Prop) (Inv : S -> Prop),
@@ -139,7 +144,7 @@ Print Assumptions C01_text_style_is_scan.
 Theorem C01_text_styles_commute : forall pfa pta opsa ta va pfb ptb opsb tb vb l A,
   ids_distinct l -> all_at ta opsa -> all_at tb opsb -> ta <> tb ->
   forall tk off,
-  req (attr_get (hstyle pfb ptb opsb tb vb l (hstyle pfa pta opsa ta va l A)) tk off)
+  RHTProofs.req (attr_get (hstyle pfb ptb opsb tb vb l (hstyle pfa pta opsa ta va l A)) tk off)
       (attr_get (hstyle pfa pta opsa ta va l (hstyle pfb ptb opsb tb vb l A)) tk off).
 Proof. exact style_style_commute. Qed.
 Print Assumptions C01_text_styles_commute.
@@ -155,3 +160,18 @@ Theorem C01_text_style_edit_commute : forall pfa pta opsa ta va pfb ptb valsb tb
     forall c, In c lb -> c_rm c = None -> attr_get A1 (c_tk c) (c_off c) = attr_get A2 (c_tk c) (c_off c).
 Proof. exact style_edit_commute_live. Qed.
 Print Assumptions C01_text_style_edit_commute.
+
+(* arrays: two concurrent operations out of insert / move / delete commute *)
+Theorem C01_array_ops_commute : forall a x y,
+  kready (akeys a) x -> kready (akeys a) y -> compat (aents a) x y ->
+  oaeq (obnd (apply_a a x) (fun a' => apply_a a' y)) (obnd (apply_a a y) (fun a' => apply_a a' x)).
+Proof. exact ops_commute. Qed.
+Print Assumptions C01_array_ops_commute.
+
+(* arrays: any number of concurrent inserts, moves and deletes, any two execution orders *)
+Theorem C01_array_batch_converges : forall ops1 ops2 a,
+  Permutation ops1 ops2 -> goodA ops1 a ->
+  oaeq (run_a ops1 (Some a)) (run_a ops2 (Some a)) /\
+  option_map a_visible (run_a ops1 (Some a)) = option_map a_visible (run_a ops2 (Some a)).
+Proof. intros ops1 ops2 a HP Hg. split; [now apply array_batch_converges|now apply array_batch_same_content]. Qed.
+Print Assumptions C01_array_batch_converges.
